@@ -594,8 +594,8 @@ def replay(ctx, w):
 
 def gen_runs(ctx):
   """Yields (LoggedDoc before the bundle, bundle) for generated histories."""
-  n_hist = ctx.n(6, 60)
-  nb = ctx.n(5, 8)
+  n_hist = ctx.n(3, 50)
+  nb = ctx.n(4, 8)
   for h in range(n_hist):
     gen = Gen(ctx.rng)
     ld = LoggedDoc()
@@ -626,7 +626,7 @@ def gen_runs(ctx):
 def correspond(ctx):
   """Tie: for real doc actions, recorded order of instrumented calls == the model's micro-step list, tables after ==
   model state after, undo actions appended == model's."""
-  tc = TieCollector(ctx.n(14, 120))
+  tc = TieCollector(ctx.n(10, 120))
   ctx._c04_runs = []
   hooks = tc.hooks()
   for ld, bundle in gen_runs(ctx):
@@ -644,7 +644,7 @@ def correspond(ctx):
 
 def search(ctx):
   stats = collections.Counter()
-  ctx._c04_tie_budget = ctx.n(60, 600)
+  ctx._c04_tie_budget = ctx.n(24, 500)
   ctx._c04_tie_cases = []
   runs = getattr(ctx, '_c04_runs', None)
   if runs is None:
@@ -652,7 +652,7 @@ def search(ctx):
     for ld, bundle in gen_runs(ctx):
       correspond_runs.append((copy.deepcopy(ld.log), copy.deepcopy(bundle), run_bundle(LoggedDoc(ld.log), bundle)))
     runs = correspond_runs
-  per_bundle = ctx.n(10, 10 ** 9)
+  per_bundle = ctx.n(6, 10 ** 9)
   seen_kinds = collections.Counter()
   for log, bundle, base in runs:
     base.plan = tie_plan(base) if base.raised is None else None
@@ -670,7 +670,7 @@ def search(ctx):
   # natural failures found by the shared history run (harness/histrun.py), re-run under the recorder
   try:
     from harness import histrun
-    res = histrun.shared_run(ctx.tier, ctx.seed, ctx.n(20, 150), 10)
+    res = histrun.shared_run(ctx.tier, ctx.seed, ctx.n(8, 150), 10)
     for iss in res['issues']:
       if iss['prop'] != 'C04':
         continue
